@@ -15,6 +15,9 @@ ASSUMPTIONS = [
     "begin_keyspace_sync, or a repair_members round), and again with the model's exchanges replaced by real poller rounds that use each node's "
     "own keyspace tracker, followed by rounds up to the poller's fixpoint; the expectation is the same in all three modes",
     "the progress watcher of begin_keyspace_sync polls every 2 ms instead of 250 ms in these runs (guarded hook; what it looks at is unchanged)",
+    "system level: two real DatacakeNode clusters (3 nodes; 2+1 nodes), operations through the public handles at level None (bulk writes that list "
+    "an id twice, rewrites, writes from two nodes, bulk deletes, delete-then-write), so that other nodes learn of them through the real task "
+    "distributor; every node's storage must end with the same stamp, kind and bytes per document (polled up to 40 s)",
     "the distributor's own aggregation loop is specified separately (Distributor.tla, validated on the real clusters of C06); here the harness "
     "builds batch payloads as the distributor does; storage failures are C02's subject",
 ]
@@ -23,7 +26,31 @@ ASSUMPTIONS = [
 def run(ctx):
     results = cluster_model.run_all(ctx, "C01")
     cov = cluster_model.judge(ctx, results, {"C01", "C02", "C05", "C07", "C19"})
+    cov["system_level"] = system_level(ctx)
     return vlib.finish(ctx, "model_checking", cov, ASSUMPTIONS)
+
+
+def system_level(ctx):
+    """Real DatacakeNode clusters, public API, every operation at level None: the other nodes learn of it only through
+    the real task distributor (and the real poller, if it gets to run).  Judged: every node's storage ends with the same
+    stamp, kind and bytes per document (polled for up to 40 s)."""
+    import json
+    binary = vlib.build_harness(ctx, "h-ec")
+    trace = ctx.path("converge.ndjson")
+    out = vlib.run_harness(ctx, [binary, "record-converge", "--out", trace, "--rounds", "3" if ctx.tier == "quick" else "12"], timeout=3000)
+    st = json.loads(out.strip().splitlines()[-1])
+    if st["documents"] < 20:
+        raise vlib.ToolError("vacuous system-level run: %s" % st)
+    tv = vlib.validate_trace(ctx, "Trace_Consistency", {}, trace, "converge", invariants=["Report"])
+    if tv["rejected"] is not None:
+        raise vlib.ToolError("trace validation stopped early: %s" % tv["rejected"])
+    ctx.log("system level: %d documents on 2 real clusters (operations at level None, real distributor): %d differ between nodes" % (
+        st["documents"], len(tv["fails"])))
+    for e in tv["fails"][:3]:
+        ctx.violations.append({"engine": "h-ec record-converge + Trace_Consistency", "event": e,
+                               "why": ["after operations issued at level None the nodes of a real cluster do not hold the same stamp / kind / bytes "
+                                       "for this document"]})
+    return {"documents": st["documents"], "documents_that_differ": len(tv["fails"])}
 
 
 def replay(ctx, path):
